@@ -9,7 +9,7 @@ from ..selftest import Mutant
 
 ID = "C01"
 TECHNIQUE = "CFG ordering (K1), two-layer abort pairing on exception edges (K3), who-may-call for tip writes (K4) and None-vs-empty selection guard (K2) in breezy/commit.py (ast)"
-FLOOR = 12
+FLOOR = 13
 CM = "breezy/commit.py"
 RP = "breezy/repository.py"
 PR = "breezy/bzr/pack_repo.py"
